@@ -156,6 +156,11 @@ def build_array(spec, form=0):
         a = DimArray(vals, axes=dict(zip(dims, labs)), dims=list(dims))
     elif form == 4:
         a = DimArray(vals, labels=[l for l in labs], dims=tuple(dims))
+    elif form == 5:  # values as nested lists, the form of the class docstring
+        if 0 in vals.shape:
+            a = DimArray(vals, axes=[(d, l) for l, d in zip(labs, dims)])
+        else:
+            a = DimArray(spec["values"], axes=[l.tolist() for l in labs], dims=list(dims), dtype=NP_DTYPE[spec["dtype"]])
     else:
         raise ValueError(form)
     a.attrs.update(attrs)
@@ -363,6 +368,10 @@ def same_scalar(p, q, rtol=1e-9):
         return norm(p) == norm(q)
     if math.isnan(pf) or math.isnan(qf):
         return math.isnan(pf) and math.isnan(qf)
+    if pf == qf:
+        return True
+    if math.isinf(pf) or math.isinf(qf):
+        return False
     return abs(pf - qf) <= 1e-12 + rtol * max(abs(pf), abs(qf))
 
 
